@@ -233,14 +233,24 @@ type c17Run struct {
 }
 
 func (r *c17Run) fail(monitor, sig string, thr int, ops []c17Op, detail string) {
+	r.failSized(monitor, sig, thr, ops, detail, len(ops))
+}
+
+// failStored reports a failure observed on what CheckpointNow actually stored; for one signature it is
+// preferred to a (shorter) failure observed on the value returned by _updateCheckpointLists
+func (r *c17Run) failStored(monitor, sig string, thr int, ops []c17Op, detail string) {
+	r.failSized(monitor, sig, thr, ops, detail, len(ops)-1000)
+}
+
+func (r *c17Run) failSized(monitor, sig string, thr int, ops []c17Op, detail string, size int) {
 	f, ok := r.fails[sig]
-	if ok && f.size <= len(ops) {
+	if ok && f.size <= size {
 		return
 	}
 	if !ok {
 		r.order = append(r.order, sig)
 	}
-	r.fails[sig] = c17Failure{monitor: monitor, sig: sig, detail: detail, ops: c17OpsDesc(ops), thr: thr, size: len(ops)}
+	r.fails[sig] = c17Failure{monitor: monitor, sig: sig, detail: detail, ops: c17OpsDesc(ops), thr: thr, size: size}
 }
 
 const c17KnownSig = "checkpoint-regress-late-expected"
@@ -611,7 +621,7 @@ func TestVerifC17(t *testing.T) {
 	type thrDepth struct{ thr, depth int }
 	plan := []thrDepth{{1, 3}, {2, 2}, {100, 3}}
 	if vThorough() {
-		plan = []thrDepth{{0, 3}, {1, 4}, {2, 3}, {100, 4}}
+		plan = []thrDepth{{0, 3}, {1, 4}, {2, 3}, {100, 3}}
 	}
 	totalNodes := 0
 	var scope []string
@@ -760,15 +770,15 @@ func TestVerifC17(t *testing.T) {
 		}
 		return append(ops, T)
 	}
-	for i := 0; i < vBudget(350, 3000); i++ {
+	for i := 0; i < vBudget(350, 1500); i++ {
 		r.emitRun("ordered", pickThr(), ordered(false))
 	}
-	for i := 0; i < vBudget(250, 2500); i++ {
+	for i := 0; i < vBudget(250, 1000); i++ {
 		r.emitRun("late", pickThr(), ordered(true))
 	}
 	// (2) adversarial: anything goes over a small universe (duplicates, completions never announced or
 	// announced later, lookups that fail, re-announcements)
-	for i := 0; i < vBudget(500, 5000); i++ {
+	for i := 0; i < vBudget(500, 2500); i++ {
 		u := make([]SequenceID, 3+rnd.Intn(6))
 		for j := range u {
 			u[j] = randTok(6)
@@ -961,7 +971,7 @@ func c17Persist(t *testing.T, r *c17Run, rnd *vRand, fixed [][]c17Op) {
 					defer func() {
 						if p := recover(); p != nil {
 							panicked = true
-							r.fail("no_panic", "checkpointer-panic", thr, path, fmt.Sprint(p))
+							r.failStored("no_panic", "checkpointer-panic", thr, path, fmt.Sprint(p))
 						}
 					}()
 					c.CheckpointNow()
@@ -982,25 +992,25 @@ func c17Persist(t *testing.T, r *c17Run, rnd *vRand, fixed [][]c17Op) {
 			}
 			// monitors on what is actually stored
 			if (l == nil) != (m == nil) || (l != nil && *l != *m) {
-				r.fail("persisted_local_equals_remote", "persisted-local-remote-differ", thr, path, "local "+descStr(l)+" remote "+descStr(m))
+				r.failStored("persisted_local_equals_remote", "persisted-local-remote-differ", thr, path, "local "+descStr(l)+" remote "+descStr(m))
 			}
 			if l == nil {
 				continue
 			}
 			cur, perr := parseIntegerSequenceID(*l)
 			if perr != nil {
-				r.fail("persisted_parses", "persisted-unparseable", thr, path, *l)
+				r.failStored("persisted_parses", "persisted-unparseable", thr, path, *l)
 				continue
 			}
 			if c.lastCheckpointSeq.String() != *l {
-				r.fail("persisted_is_last_checkpoint", "persisted-differs-from-lastCheckpointSeq", thr, path, "stored "+*l+" lastCheckpointSeq "+c.lastCheckpointSeq.String())
+				r.failStored("persisted_is_last_checkpoint", "persisted-differs-from-lastCheckpointSeq", thr, path, "stored "+*l+" lastCheckpointSeq "+c.lastCheckpointSeq.String())
 			}
 			if !written {
 				continue
 			}
 			for _, e := range g.E {
 				if c17LeTok(e, cur) && !g.P[e] {
-					r.fail("checkpoint_safe", "checkpoint-ahead-of-unprocessed", thr, path, "persisted "+*l+" while expected "+c17TokDesc(e)+" is neither processed nor known")
+					r.failStored("checkpoint_safe", "checkpoint-ahead-of-unprocessed", thr, path, "persisted "+*l+" while expected "+c17TokDesc(e)+" is neither processed nor known")
 				}
 			}
 			if g.pending() {
@@ -1016,9 +1026,9 @@ func c17Persist(t *testing.T, r *c17Run, rnd *vRand, fixed [][]c17Op) {
 				detail := "PERSISTED checkpoint (local document and remote peer) moves backwards: " + prev.String() + " then " + *l
 				r.persistsLower = true
 				if late {
-					r.fail("checkpoint_monotone", c17KnownSig, thr, path, detail+" (announced after the earlier checkpoint was persisted)")
+					r.failStored("checkpoint_monotone", c17KnownSig, thr, path, detail+" (announced after the earlier checkpoint was persisted)")
 				} else {
-					r.fail("checkpoint_monotone", "checkpoint-regress-ordered-feed", thr, path, detail)
+					r.failStored("checkpoint_monotone", "checkpoint-regress-ordered-feed", thr, path, detail)
 				}
 			}
 			if prev == nil || cur != *prev {
